@@ -2859,7 +2859,8 @@ def check_derived(ctx, cls, pal, s, dname, dfn, d):
         r = call(lambda: f2(dfn(make_seq(cls, pal, s)), make_seq(cls, pal, d)))
         if r[0] == "ok":
             r = ("ok", plain(r[1]) if not isinstance(r[1], (list, tuple)) or oname != "views" else list(r[1]))
-        judge(ctx, "Sequence.derived|" + oname, "after_" + dname, mk, r, ("accept", want), 1)
+        dcls = "".join(ch for ch in dname.split("_of_")[0] if not ch.isdigit())
+        judge(ctx, "Sequence.derived|" + oname, "after_" + dcls, mk, r, ("accept", want), 1)
     ctx.outcome(("derived", cls, dname, d))
 
 
@@ -2892,10 +2893,11 @@ def fam_identity_derived(ctx, part):
 
         alphp = sm.PROT24
         for s in ("ATGAAATAAATGCC", "TTGATGTGA", "ATG"):
-            o = sm.orfs(s, sm.STANDARD_CODE, {"ATG"}, True)
-            for j, (p, _) in enumerate(o):
-                check_derived(ctx, "prot", None, p, "translate_orf%d_of_%s" % (j, s),
-                              lambda q, s=s, j=j: bs.NucleotideSequence(s).translate(met_start=True)[0][j], p)
+            for met in (True, False):
+                o = sm.orfs(s, sm.STANDARD_CODE, {"ATG"}, met)
+                for j, (p, _) in enumerate(o):
+                    check_derived(ctx, "prot", None, p, "translate_orf%d%s_of_%s" % (j, "_met" if met else "", s),
+                                  lambda q, s=s, j=j, met=met: bs.NucleotideSequence(s).translate(met_start=met)[0][j], p)
             if len(s) % 3 == 0:
                 pc = sm.translate_complete(s, sm.STANDARD_CODE)
                 check_derived(ctx, "prot", None, pc, "translate_complete_of_" + s,
